@@ -57,6 +57,13 @@ func (k Keeper) BridgeCallHandler(ctx sdk.Context, msg *types.MsgBridgeCallClaim
 			},
 		)
 	}
+	// the bridged coins were credited to receiverAddr above, outside the discarded cache context;
+	// the refund call withdraws them from the refund address, so hand them over first
+	if refundAddr := msg.GetRefundAddr(); !bytes.Equal(receiverAddr.Bytes(), refundAddr.Bytes()) && !baseCoins.IsZero() {
+		if err = k.bankKeeper.SendCoins(ctx, receiverAddr.Bytes(), refundAddr.Bytes(), baseCoins); err != nil {
+			return err
+		}
+	}
 	return k.BridgeCallFailedRefund(ctx, msg.GetRefundAddr(), baseCoins, msg.EventNonce)
 }
 
